@@ -140,3 +140,173 @@ def module_equations(consts, fields):
             v = raw * pow(R, -1, p) % p
             add(p % 8 == 5 and v == pow(2, (p - 5) // 8, p), 'T_SQRT = 2^((p - 5)/8) mod p (square roots for p = 5 mod 8, as documented at the constant)')
     return out
+
+
+# --------------------------------------------------------------------------- hash-function constants (FIPS 180-4, RIPEMD-160)
+def _primes(n):
+    out, c = [], 2
+    while len(out) < n:
+        if all(c % q for q in out if q * q <= c):
+            out.append(c)
+        c += 1
+    return out
+
+
+def _iroot(x, k):
+    lo, hi = 0, 1 << (x.bit_length() // k + 2)
+    while lo < hi:
+        mid = (lo + hi + 1) // 2
+        if mid ** k <= x:
+            lo = mid
+        else:
+            hi = mid - 1
+    return lo
+
+
+def words(hexs, w):
+    b = bytes.fromhex(hexs)
+    return [int.from_bytes(b[i:i + w], 'little') for i in range(0, len(b), w)]
+
+
+def sha2_equations(consts):
+    """[(const id, ok, detail, loc)]: round constants = fractional parts of the cube roots of the first primes, IV = of their square roots"""
+    out = []
+    for c in consts:
+        if 'hex' not in c:
+            continue
+        cid = c['id']
+        loc = f"{c['file']}:{c['line']}"
+        for fam, w, nk in (('sha256', 4, 64), ('sha512', 8, 80)):
+            if f'::hash::{fam}::' not in cid:
+                continue
+            if cid.endswith('::ROUND_CONSTANTS') and c['size'] == w * nk:
+                exp = [_iroot(p << (24 * w), 3) % (1 << (8 * w)) for p in _primes(nk)]
+                out.append((cid, words(c['hex'], w) == exp, f'K[i] = first {8 * w} bits of the fractional part of the cube root of the i-th prime ({nk} words)', loc))
+            if cid.endswith('::IV') and c['size'] == w * 8:
+                exp = [_iroot(p << (16 * w), 2) % (1 << (8 * w)) for p in _primes(8)]
+                out.append((cid, words(c['hex'], w) == exp, f'IV[i] = first {8 * w} bits of the fractional part of the square root of the i-th prime', loc))
+    return out
+
+
+def ripemd_equations(consts):
+    by = {c['id'].rsplit('::', 1)[-1]: c for c in consts if '::hash::ripemd160::ripemd160_chip::' in c['id'] and 'hex' in c}
+    out = []
+
+    def loc(n):
+        return f"{by[n]['file']}:{by[n]['line']}"
+    if 'K' in by:
+        exp = [0] + [_iroot(n << 60, 2) for n in (2, 3, 5, 7)]
+        out.append((by['K']['id'], words(by['K']['hex'], 4) == exp, 'K = 0, floor(2^30 * sqrt(2, 3, 5, 7))', loc('K')))
+    if 'K_PRIME' in by:
+        exp = [_iroot(n << 90, 3) for n in (2, 3, 5, 7)] + [0]
+        out.append((by['K_PRIME']['id'], words(by['K_PRIME']['hex'], 4) == exp, "K' = floor(2^30 * cbrt(2, 3, 5, 7)), 0", loc('K_PRIME')))
+    if 'IV' in by:
+        out.append((by['IV']['id'], by['IV']['hex'] == '0123456789abcdeffedcba9876543210f0e1d2c3', 'IV = 67452301 efcdab89 98badcfe 10325476 c3d2e1f0', loc('IV')))
+    rho = [7, 4, 13, 1, 10, 6, 15, 3, 12, 0, 9, 5, 2, 14, 11, 8]
+    if 'R' in by and by['R']['size'] == 80:
+        r = list(bytes.fromhex(by['R']['hex']))
+        exp, cur = [], list(range(16))
+        for _ in range(5):
+            exp += cur
+            cur = [rho[i] for i in cur]
+        out.append((by['R']['id'], r == exp, 'left message-word selection: identity, rho, rho^2, rho^3, rho^4', loc('R')))
+    if 'R_PRIME' in by and by['R_PRIME']['size'] == 80:
+        r = list(bytes.fromhex(by['R_PRIME']['hex']))
+        exp, cur = [], [(9 * i + 5) % 16 for i in range(16)]
+        for _ in range(5):
+            exp += cur
+            cur = [rho[i] for i in cur]
+        out.append((by['R_PRIME']['id'], r == exp, 'right message-word selection: pi, rho pi, ..., rho^4 pi with pi(i) = 9i + 5 mod 16', loc('R_PRIME')))
+    if all(k in by for k in ('R', 'R_PRIME', 'S', 'S_PRIME')) and all(by[k]['size'] == 80 for k in ('R', 'R_PRIME', 'S', 'S_PRIME')):
+        R, RP, S, SP = (list(bytes.fromhex(by[k]['hex'])) for k in ('R', 'R_PRIME', 'S', 'S_PRIME'))
+        ok = True
+        for k in range(5):
+            T = {}
+            for j in range(16):
+                T[R[16 * k + j]] = S[16 * k + j]
+            ok = ok and len(T) == 16 and all(SP[16 * k + j] == T[RP[16 * k + j]] for j in range(16))
+        out.append((by['S_PRIME']['id'], ok, "the rotation amount depends on the round and on the message word only: s'(j) = T[round][r'(j)] with T read off s and r", loc('S_PRIME')))
+    return out
+
+
+def base64_equations(consts):
+    out = []
+    alpha = 'ABCDEFGHIJKLMNOPQRSTUVWXYZabcdefghijklmnopqrstuvwxyz0123456789+/'
+    for c in consts:
+        if c['id'].endswith('::parsing::table::BASE64_TABLE') and 'hex' in c and c['size'] == 512:
+            b = bytes.fromhex(c['hex'])
+            ent = [(int.from_bytes(b[8 * i:8 * i + 4], 'little'), b[8 * i + 4]) for i in range(64)]
+            out.append((c['id'], ent == [(ord(ch), i) for i, ch in enumerate(alpha)], 'entry i = (i-th character of the standard alphabet A-Z a-z 0-9 + /, i)', f"{c['file']}:{c['line']}"))
+    return out
+
+
+# --------------------------------------------------------------------------- curve parameters
+KNOWN_SUBGROUP_ORDERS = {       # mathematical constants (group orders of the prime-order subgroups)
+    'midnight_curves::k256::curve::K256': 0xFFFFFFFFFFFFFFFFFFFFFFFFFFFFFFFEBAAEDCE6AF48A03BBFD25E8CD0364141,
+    'midnight_curves::curve25519::curve::Curve25519': (1 << 252) + 27742317777372353535851937790883648493,
+}
+
+
+def curve_equations(curves_consts, circuits_consts):
+    """agreement of the curve parameters used in-circuit (CircuitCurve / EdwardsCurve / WeierstrassCurve constants of the circuits crate) with the
+    parameters of the curve implementation (curves crate), and the curve equations' coefficients themselves"""
+    out = []
+    fields = prime_fields(curves_consts)
+    cc = {c['id']: c for c in curves_consts if 'hex' in c}
+    ci = {c['id']: c for c in circuits_consts if 'hex' in c}
+
+    def field_val(fname, hexs):
+        fc = fields.get(fname)
+        if fc is None or 'MODULUS' not in fc.c or fc.raw('ONE') is None:
+            return None, None
+        p = int(fc.c['MODULUS']['str'], 16)
+        return (le(hexs) * pow(fc.raw('ONE'), -1, p)) % p, p
+
+    def loc(c):
+        return f"{c['file']}:{c['line']}"
+    pairs = [
+        ('<midnight_curves::jubjub::curve::JubjubExtended as midnight_circuits::ecc::curves::EdwardsCurve>::D', 'midnight_curves::jubjub::curve::EDWARDS_D'),
+        ('<midnight_curves::curve25519::curve::Curve25519 as midnight_circuits::ecc::curves::EdwardsCurve>::D', 'midnight_curves::curve25519::curve::CURVE_D'),
+        ('<midnight_curves::curve25519::curve::Curve25519 as midnight_circuits::ecc::curves::EdwardsCurve>::A', 'midnight_curves::curve25519::curve::CURVE_A'),
+        ('<midnight_curves::bls12_381::g1::G1Projective as midnight_circuits::ecc::curves::WeierstrassCurve>::B', 'midnight_curves::bls12_381::g1::B'),
+        ('<midnight_curves::bls12_381::g1::G1Projective as midnight_circuits::ecc::curves::WeierstrassCurve>::A', 'midnight_curves::bls12_381::g1::A'),
+    ]
+    for a, b in pairs:
+        if a in ci and b in cc:
+            out.append((a, ci[a]['hex'] == cc[b]['hex'], f'the in-circuit parameter equals {b.rsplit("::", 2)[-2]}::{b.rsplit("::", 1)[-1]} of the curve implementation', loc(ci[a])))
+    FQ = 'midnight_curves::bls12_381::fq::Fq'
+    FP25519 = 'midnight_curves::curve25519::fp::Fp'
+    FP381 = 'midnight_curves::bls12_381::fp::Fp'
+    # coefficients of the curve equations
+    eqs = [
+        ('midnight_curves::jubjub::curve::EDWARDS_D', cc, FQ, lambda v, p: (v * 10241 + 10240) % p == 0, 'd = -10240/10241 (Jubjub)'),
+        ('<midnight_curves::jubjub::curve::JubjubExtended as midnight_circuits::ecc::curves::EdwardsCurve>::A', ci, FQ, lambda v, p: v == p - 1, 'a = -1 (Jubjub)'),
+        ('midnight_curves::curve25519::curve::CURVE_D', cc, FP25519, lambda v, p: (v * 121666 + 121665) % p == 0, 'd = -121665/121666 (Curve25519)'),
+        ('midnight_curves::curve25519::curve::CURVE_A', cc, FP25519, lambda v, p: v == p - 1, 'a = -1 (Curve25519)'),
+        ('midnight_curves::bls12_381::g1::B', cc, FP381, lambda v, p: v == 4, 'b = 4 (BLS12-381 G1)'),
+        ('midnight_curves::bls12_381::g1::A', cc, FP381, lambda v, p: v == 0, 'a = 0 (BLS12-381 G1)'),
+    ]
+    for cid, table, fname, pred, what in eqs:
+        if cid in table:
+            v, p = field_val(fname, table[cid]['hex'])
+            if v is not None:
+                out.append((cid, pred(v, p), what, loc(table[cid])))
+    if 'midnight_curves::jubjub::curve::EDWARDS_D' in cc and 'midnight_curves::jubjub::curve::EDWARDS_D2' in cc:
+        d, p = field_val(FQ, cc['midnight_curves::jubjub::curve::EDWARDS_D']['hex'])
+        d2, _ = field_val(FQ, cc['midnight_curves::jubjub::curve::EDWARDS_D2']['hex'])
+        if d is not None:
+            out.append(('midnight_curves::jubjub::curve::EDWARDS_D2', d2 == 2 * d % p, 'EDWARDS_D2 = 2 * EDWARDS_D', loc(cc['midnight_curves::jubjub::curve::EDWARDS_D2'])))
+    # size of the prime-order subgroup
+    orders = dict(KNOWN_SUBGROUP_ORDERS)
+    for cname, fname in (('midnight_curves::jubjub::curve::JubjubExtended', 'midnight_curves::jubjub::fr::Fr'), ('midnight_curves::bls12_381::g1::G1Projective', FQ)):
+        fc = fields.get(fname)
+        if fc is not None and 'MODULUS' in fc.c:
+            orders[cname] = int(fc.c['MODULUS']['str'], 16)
+    for cname, r in orders.items():
+        k = f'<{cname} as midnight_circuits::ecc::curves::CircuitCurve>::NUM_BITS_SUBGROUP'
+        if k in ci:
+            out.append((k, le(ci[k]['hex']) == r.bit_length(), f'NUM_BITS_SUBGROUP = bit length of the order of the prime-order subgroup ({r.bit_length()})', loc(ci[k])))
+    fb = 'midnight_curves::jubjub::curve::FR_MODULUS_BYTES'
+    if fb in cc and 'midnight_curves::jubjub::curve::JubjubExtended' in orders:
+        out.append((fb, le(cc[fb]['hex']) == orders['midnight_curves::jubjub::curve::JubjubExtended'], 'FR_MODULUS_BYTES = little-endian bytes of the Jubjub scalar modulus', loc(cc[fb])))
+    return out
